@@ -338,6 +338,28 @@ theorem sorted_perm_unique {β : Type*} [LinearOrder β] {l₁ l₂ : List β} (
     (h₁ : l₁.Pairwise (· < ·)) (h₂ : l₂.Pairwise (· < ·)) : l₁ = l₂ :=
   hp.eq_of_pairwise' h₁ h₂
 
+/-- [lemma.fold_subset] adding names that are all present changes nothing (`d |= d`: x op x = x) -/
+theorem foldl_add1_of_subset (xs : List α) : ∀ s : List α, (∀ x ∈ xs, x ∈ s) → xs.foldl add1 s = s := by
+  induction xs with
+  | nil => intro s _; rfl
+  | cons x xs ih =>
+    intro s h
+    have hx : x ∈ s := h x (by simp)
+    rw [List.foldl_cons]
+    have : add1 s x = s := by simp [add1, hx]
+    rw [this]
+    exact ih s (fun y hy => h y (by simp [hy]))
+
+theorem lemma_fold_self (s : List α) : foldAdd s s s.length = s := by
+  simp only [foldAdd, List.take_length]
+  exact foldl_add1_of_subset s s (fun x hx => hx)
+
+/-- [lemma.keep_self] keeping the elements of `s` that are in `s` is `s` -/
+theorem lemma_keep_self (s : List α) : s.filter (fun x => decide (x ∈ s)) = s := by
+  apply List.filter_eq_self.2
+  intro x hx
+  simpa using hx
+
 #print axioms lemma_fold_dedup
 #print axioms lemma_fold_len
 #print axioms lemma_erase_fold_keep
